@@ -339,11 +339,11 @@ class Interp:
 
     def stmt(self, node, st, frame):
         try:
-            return self._stmt(node, st, frame)
+            return self._exec_stmt(node, st, frame)
         except AlwaysRaises:
             return [(st, ("raise",))]
 
-    def _stmt(self, node, st, frame):
+    def _exec_stmt(self, node, st, frame):
         if isinstance(node, ast.Expr):
             if isinstance(node.value, (ast.Yield, ast.YieldFrom)):
                 self._yield(node.value, st, frame)
